@@ -525,6 +525,7 @@ func c20LibraryLog(t *c20, e gen.Env, next func() bool) {
 	if scratch == "" {
 		scratch = os.TempDir()
 	}
+	mon.Log.Counting(true)
 	loggers := []*fastlog.Logger{packet.Logger, arp_spoofer.Logger, dhcp4_spoofer.Logger, dns_naming.Logger}
 	n := c.N(64, 1600)
 	for k := int64(0); k < n; k++ {
